@@ -69,6 +69,7 @@ OPS = {
     'x_categories_dict': [('APGR',)],
     'x_reverse_nodes': [()],
     'x_param_int': [()],
+    'x_value_type': [('LIKELIHOOD',), ('-2LL',)],
 }
 
 _cache = {}
@@ -121,6 +122,8 @@ def apply_op(m, name, args):
             s = y if n == 'Y' else Expr.symbol(n)
             dv[s] = 1 if n == 'Y' else 2
         return m.replace(dependent_variables=dv)
+    if name == 'x_value_type':
+        return m.replace(value_type=args[0])
     if name == 'x_move_path':
         return m.replace(datainfo=m.datainfo.replace(path=args[0]))
     if name == 'x_dataset_cell':
